@@ -298,15 +298,28 @@ Theorem workfree_keeps_tail :
 Proof. exact workfree_keeps_tail_example. Qed.
 Print Assumptions workfree_keeps_tail.
 
-(* MemInit failed, no L/U built, p?gssvx still reads L->Store / U->Store (superlu_?QuerySpace) *)
-Theorem driver_reads_uninit_L_refuted :
+(* MemInit failed: info > n + 1, no L/U is built, and p?gssvx reads neither L->Store nor U->Store (since the repair of finding
+   C14-F4 the statistics call superlu_?QuerySpace(L, U) is skipped for info > n + 1); for every allocator behaviour, every
+   configuration and all arguments with n >= 1 *)
+Theorem driver_never_reads_unbuilt_LU :
+  forall (fail : nat -> bool) (c : cfg), 0 <= dword c ->
+  forall (fuel : nat) (a : mi_args) (m : mem) (code : Z) (m' : mem) (infos : list Z) (fo : fact_outcome),
+    1 <= a_n a -> 0 <= a_annz a -> 0 <= a_nzlumax a ->
+    mem_init fail c fuel a m = Ok (MIfail code) m' ->
+    gstrf_outcome (MIfail code) infos = Some fo ->
+    fo_lu_built fo = false /\ a_n a + 1 < fo_info fo /\
+    forallb (fun x => negb (reads_lu x)) (gssvx_tail (a_lwork a) (a_n a) (fo_info fo)) = true.
+Proof. intros fail c H. exact (driver_never_reads_unbuilt fail c H). Qed.
+Print Assumptions driver_never_reads_unbuilt_LU.
+
+Theorem driver_skips_queryspace_after_failure :
   exists a code m' fo,
     0 < a_lwork a /\
     mem_init (fun _ => false) default_cfg 64 a init_mem = Ok (MIfail code) m' /\
-    gstrf_outcome (MIfail code) [] = Some fo /\ a_n a < fo_info fo /\ fo_lu_built fo = false /\
-    existsb reads_lu (gssvx_tail (a_lwork a) (a_n a) (fo_info fo)) = true.
-Proof. exact driver_reads_uninit_lemma. Qed.
-Print Assumptions driver_reads_uninit_L_refuted.
+    gstrf_outcome (MIfail code) [] = Some fo /\ a_n a + 1 < fo_info fo /\ fo_lu_built fo = false /\
+    existsb reads_lu (gssvx_tail (a_lwork a) (a_n a) (fo_info fo)) = false.
+Proof. exact driver_skips_queryspace_example. Qed.
+Print Assumptions driver_skips_queryspace_after_failure.
 
 (* the ?expanders header is never tested *)
 Theorem expanders_null_crash_refuted :
